@@ -66,6 +66,18 @@ def rhs(bkind, M, V, n, tok, seed):
         b = np.zeros(n, dtype=M.dtype)
         b[0] = 1
         return b, None
+    if bkind == "zerocol":  # a zero column among non-zero ones
+        B = rnd(n, 3)
+        B[:, 1] = 0
+        return B.astype(M.dtype), None
+    if bkind == "mix2":  # heterogeneous batch: an eigenvector (breakdown after one step) next to a generic column
+        v0 = V[:, 0] if V is not None else np.linalg.eig(M)[1][:, 0]
+        B = np.stack([v0 * 2.0, rnd(n) + 0j], axis=1)
+        if not c:
+            if np.max(np.abs(B.imag)) > 1e-12:
+                return rnd(n, 2), None
+            B = B.real
+        return B.astype(M.dtype), None
     d = {"eig1": 1, "deg2": 2, "deg3": 3}[bkind]
     d = min(d, n)
     b = V[:, :d] @ (1 + np.arange(d))
@@ -161,12 +173,14 @@ _DESC = {}
 def cases(tier, seed):
     out = []
     small = [1, 2, 3, 4, 5, 6]
-    big = [8, 25] if tier == "quick" else [8, 25, 60, 150]
+    big = [8, 25] if tier == "quick" else [8, 12, 25, 40, 60, 150]
     tols = [1e-12, 1e-6]
     for tok in ("f8", "c16"):
         for n in small:
             ms = list(range(1, n + 4))
-            for bk in ("rand1", "rand3", "e1"):
+            for bk in ("rand1", "rand3", "e1", "zerocol", "mix2"):
+                if bk == "mix2" and n < 2:
+                    continue
                 for x0k in ("none", "rand"):
                     for tol in tols:
                         for entry in ("gmres", "inv"):
@@ -175,11 +189,11 @@ def cases(tier, seed):
     for fam, tok in fams:
         for n in ([3, 5] + big):
             ms = list(range(1, n + 4)) if n <= 8 else sorted({1, 2, 5, 10, 25, n, n + 5})
-            for bk in ("rand1", "rand3", "eig1", "deg2", "deg3"):
+            for bk in ("rand1", "rand3", "eig1", "deg2", "deg3", "zerocol", "mix2"):
                 for x0k in ("none", "rand"):
                     for tol in tols:
                         for entry in (("gmres", "inv") if n <= 25 else ("gmres", )):
-                            if tier == "quick" and n > 8 and (tol == 1e-6 or entry == "inv") and bk not in ("rand1", "deg2"):
+                            if tier == "quick" and n > 8 and (tol == 1e-6 or entry == "inv") and bk not in ("rand1", "deg2", "mix2"):
                                 continue
                             out.append([fam, n, tok, bk, x0k, tol, entry, ms])
     _DESC.update({"groups": len(out), "runs": sum(len(c[-1]) for c in out), "sizes": small + big})
@@ -194,7 +208,7 @@ def describe(tier, seed):
     return {
         "bound": "operators: integer nonsingular n=1..6 (real: exact rational optimum; complex), complex normal, real / complex "
                  "non-normal with prescribed eigenvectors, n in " + str(_DESC.get("sizes")) + "; right-hand sides: 1 column, 3 columns "
-                 "(norms 1e-3, 1, 1e3), e1, eigenvector, minimal-polynomial degree 2 and 3; x0 in {none, random}; every m in 1..n+3 "
+                 "(norms 1e-3, 1, 1e3), e1, eigenvector, minimal-polynomial degree 2 and 3, a zero column among non-zero ones, a heterogeneous batch (eigenvector + generic); x0 in {none, random}; every m in 1..n+3 "
                  "(n<=8) / {1,2,5,10,25,n,n+5}; tol in {1e-12, 1e-6}; entry points gmres() and inv(A, GMRES()) @ b",
         "alphabet": _DESC,
         "oracle": "per column: residual <= (1+1e-6) * Krylov optimum + slack; <= initial residual; non-increasing in m; ~0 at m >= n or "
